@@ -46,14 +46,17 @@ func WithHistogramDataPointStatistics(values []float64) func(HistogramDataPoint)
 		if len(values) == 0 { // a timer that received nothing in this interval
 			return
 		}
-		hdp.raw.Min = &values[0]
-		hdp.raw.Max = &values[len(values)-1]
+		// Min and Max must not point into values: the slice belongs to the flushed map, which other backends read, and
+		// writing through the pointers while summing changes the elements that are still to be added.
+		min, max := values[0], values[0]
+		hdp.raw.Min = &min
+		hdp.raw.Max = &max
 		hdp.raw.Count = uint64(len(values))
 
 		for _, v := range values {
 			*hdp.raw.Sum += v
-			*hdp.raw.Min = math.Min(*hdp.raw.Min, v)
-			*hdp.raw.Max = math.Max(*hdp.raw.Max, v)
+			min = math.Min(min, v)
+			max = math.Max(max, v)
 		}
 	}
 }
